@@ -863,6 +863,24 @@ def base_maps(rng, spec, tier):
     maps.append(("gen:mrgn-full", data))
     data, _ = gen.gen("editor", "no-anywhere")      # a (consistent) map whose location table has no entry 64 ("Anywhere")
     maps.append(("gen:no-anywhere", data))
+    # unit-property slots that hold VALUES ONLY (percentages left at 100 with nothing ticked; a resource amount alone):
+    # they are stored sets like any other — a later new set must not be given their slot.  Built from a private random
+    # stream so that adding this map does not move the draws of the others.
+    g2 = MapGen(Rng(4242), spec)
+    g2.force_quiet = True
+    d2, _ = g2.gen("editor")
+    L = refchk.layouts_of(spec)
+    cs = [(n, p) for n, _, p in refchk.split_chunks(d2)]
+    if b"UPRP" in dict(cs) and b"UPUS" in dict(cs):
+        up = refchk.fields_of(L[b"UPRP"], dict(cs)[b"UPRP"])
+        free = [i for i, r in enumerate(up["records"]) if not any(r.values())]
+        if len(free) >= 4:
+            up["records"][free[0]].update(_hitpoints_percentage=100, _shieldpoints_percentage=100, _energypoints_percentage=100)
+            up["records"][free[1]].update(_resource_amount=5000)
+            upus = bytearray(dict(cs)[b"UPUS"])
+            upus[free[0]] = upus[free[1]] = 1
+            repl = {b"UPRP": refchk.build(L[b"UPRP"], up), b"UPUS": bytes(upus)}
+            maps.append(("gen:uprp-values-only", refchk.join_chunks([(n, repl.get(n, p)) for n, p in cs])))
     return maps
 
 
@@ -1290,6 +1308,15 @@ def run(prop, tier, seed):
                 out.violations.append(dict(base_info, oracle="unmodelled content passes through untouched and in place, whatever edits are made elsewhere", diff=d, key=key))
         if prop == "C07" and not sc["kind"].startswith("degenerate"):
             check_c07(sc, sc["base_out"], res, spec, out, base_info)
+            if sc["tag"] == "gen:uprp-values-only":
+                # this base is judged against the map's own BYTES (not against its unedited save): the unit-property sets it
+                # stores — the two that hold values only included — sit in their slots with their values after any edit
+                vin, vout = refchk.game_view(sc["base"], spec)["cuwps"], refchk.game_view(res, spec)["cuwps"]
+                for slot, rec in sorted(vin.items()):
+                    if vout.get(slot) != rec:
+                        out.violations.append(dict(base_info, oracle="a unit-property set the map stores keeps its slot and its values through any edit (also a set that holds values only, nothing ticked)",
+                                                   slot=slot, stored=rec, now=vout.get(slot), key=None, hex=sc["base"].hex() if len(sc["base"]) < 40000 else None))
+                        break
         if prop == "C11":
             before = set(refchk.struct_valid(sc["base_out"], spec))
             for p in [p for p in refchk.struct_valid(res, spec) if p not in before or p.startswith("UPUS marks")][:3]:
